@@ -355,6 +355,36 @@ def r5(ctx):
     ctx.ob("pass starts at WORST_SCORE", starts and all(x == "<P as chess_engine::Policy>::WORST_SCORE" for x in starts), f"root score is initialised from {starts}", site=site, sample=starts[:1])
 
 
+@rule("C12.R7", "the score search_with reports comes from the search (alphabeta) or is the policy's worst score, never from somewhere else")
+def r7(ctx):
+    """A mate in one is *reported* as such only if the reported score is the one alphabeta computed for the kept move: a shortcut that returns a
+    static evaluation (a 'forced move' fast path, a cached value) reports Raw(..) for a mating move."""
+    P = ctx.P
+    from rules.C11 import return_sites
+    key = P.find_fn("Engine::search_with", "chess_engine")
+    ctx.used_body(key)
+    body = P.body(key)
+    ab = P.find_fn("Engine::alphabeta", "chess_engine")
+    rs = return_sites(body)
+    ctx.floor("return sites of search_with", len(rs), 1)
+    for bi, s in rs:
+        r = s["r"]
+        if not (r.get("k") == "agg" and r.get("ak") == "tuple" and len(r["ops"]) == 2):
+            ctx.ob(f"return@{bi} shape", False, "search_with's result is not built as a (move, score) pair", site=body.get("def_span"))
+            continue
+        o = r["ops"][1]
+        src = k2.origins(P, body, o["p"]["l"], path=k2._field_path(o["p"]["pj"]) or ()) if o.get("k") in ("copy", "move") else {("const", str(k2.describe_operand(P, body, o)))}
+        bad = []
+        for x in src:
+            if x[0] == "call" and T.strip_generics(x[1]) == ab:
+                continue
+            if x[0] == "const" and "WORST_SCORE" in x[1]:
+                continue
+            bad.append(str(x)[:120])
+        ctx.ob(f"return@{bi} score provenance", not bad, f"the score returned by search_with can originate from {bad[:2]}; expected only results of alphabeta (or P::WORST_SCORE when no pass completed)",
+               site=body.get("def_span"), sample={"origins": len(src)})
+
+
 @rule("C12.R6", "premise: the staged move iteration of the search (set_mask / next / len) loses no legal move (C10.R3, C10.R7, C10.R9 re-run)")
 def r_premise(ctx):
     from analysis.runner import premise
